@@ -86,4 +86,10 @@ def gen(rng, tier):
                 if rng.randrange(3) == 0:
                     sv = rng.choice([-1, 0, 1, 1, -1, 2, 255])
                     reqs.append("C17 i.de_in_place %s %d %s%s" % (wi(signed(rng, old)), sv, wwords(ws), h))
+    # api-coverage block: Serialize / Deserialize for Sign on their own: the three signs; every i8 value and
+    # integers outside i8 (only -1, 0, 1 are accepted)
+    for s in "+-0":
+        reqs.append("C17 sign.ser %s" % s)
+    for sb in list(range(-130, 131)) + [255, 256, 65535, -65536, (1 << 31), -(1 << 31), (1 << 63) - 1, -(1 << 63)]:
+        reqs.append("C17 sign.de %d" % sb)
     return reqs
